@@ -43,6 +43,7 @@ import dataclasses
 
 from mc import afx
 from mc import family as FAM
+from mc import treehash
 from mc import specs as S
 from mc.explorer import Result, jhash, pmap
 from mc.yamlspec import YamlArch, YamlWL
@@ -279,6 +280,7 @@ def make_tree():
 
 def run(ctx):
     afx.serial()
+    treehash.tree_hash()  # pin the cache key in the parent: all forked workers of this run share one cache directory
     _QUICK[0] = ctx.quick
     _TAB.update(_spec_table(ctx))
     # fill the on-disk run cache once per distinct (spec, variant, metric): a variant is shared by several relaxations
